@@ -150,7 +150,17 @@ class Site:
 
     @property
     def in_helper(self):
-        return self.f.is_unknown_helper(self.body) and self.owner != self.body.nname
+        if self.f.is_unknown_helper(self.body) and self.owner != self.body.nname:
+            return True
+        # a closure that the owning function's paths see inlined (handed to a higher-order helper that does not exist on
+        # the reference tree): judged there too, with the values the helper passes to it
+        if self.body.kind == 'Closure' and self.owner != self.body.nname and len(self.f.by_name.get(self.owner, [])) == 1:
+            v = getattr(self, '_inl', None)
+            if v is None:
+                v = self._inl = any(e.get('body') == self.body.nname for p in self.ctx.paths(self.f, self.f.fn(self.owner), 'none')
+                                    for e in p.events)
+            return v
+        return False
 
     @property
     def paths(self):
@@ -488,6 +498,19 @@ def h_assert(site):
         if allok:
             return ok(site, 'subtraction guarded by a dominating `value > 0`-style test on the same value on every path')
     if kind.startswith('Overflow(Add)') and occ:
+        # the length of an in-memory collection (<= isize::MAX) plus a small constant
+        allok = True
+        for p, i, e in occ:
+            calls = {c['id']: c for c in p.calls()}
+            a, c = e['ops']
+            if c[0] != 'const':
+                a, c = c, a
+            if not (c[0] == 'const' and c[2] is not None and 0 <= c[2] <= 2 ** 32 and a[0] == 'call' and a[1] in calls and
+                    calls[a[1]]['res'] in ('alloc::vec::Vec::len', 'core::slice::<impl [T]>::len')):
+                allok = False
+                break
+        if allok:
+            return ok(site, 'a Vec/slice length (<= isize::MAX) plus a constant below 2^32 cannot overflow usize')
         # x + 1 after a test establishing x < y for the same symbolic value (`while n < limit { ..; n += 1 }`): y is
         # representable, so x + 1 <= y is too
         allok = True
@@ -533,7 +556,20 @@ def h_assert(site):
             AB = ab
         if not good or AB is None:
             return bad(site, '%s (%s)' % (why, site.raw['desc'].rsplit('/', 1)[-1]))
-        is_mps = lambda v: v[0] == 'unop' and v[1] == 'NonZeroGet' and q.loads_self_field(v[2], 'config', 'max_packet_size')
+        owner_body = site.f.fn('Foca::estimate_feed_capacity')
+        cfg_params = [k for k in range(1, owner_body.argc + 1) if str(owner_body.locals[k]).endswith('config::Config')]
+
+        def is_mps(v, call=None):
+            if not (v[0] == 'unop' and v[1] == 'NonZeroGet'):
+                return False
+            if q.loads_self_field(v[2], 'config', 'max_packet_size'):
+                return True
+            # read through a `&Config` parameter that the caller fills with `&self.config`
+            for k in cfg_params:
+                if v[2] == ('load', ('field', ('deref', ('param', 0, k)), 'max_packet_size', None), 0) and call is not None \
+                        and call['args'][k - 1] == ('ref', q.self_field('config'), False):
+                    return True
+            return False
         why = 'call site of estimate_feed_capacity is not dominated by put_u16 on the limited buffer'
         callers = site.f.callers_of(lambda n: n == 'Foca::estimate_feed_capacity')
         good = len(callers) == 1
@@ -551,7 +587,7 @@ def h_assert(site):
                                and is_rem and buffer_id(c['args'][0]) == buffer_id(calls[arg[1]]['args'][0])]
                         lim = [c for c in p.events[:i] if c['kind'] == 'call' and c['res'] == 'bytes::BufMut::limit'
                                and q.loads_self_field(c['args'][1], 'config', 'max_packet_size')]
-                        if not (is_mps(A) and is_rem and put and lim):
+                        if not (is_mps(A, e) and is_rem and put and lim):
                             good = False
         return audited(site, key, good and nsite > 0, why)
     key = (site.owner, 'assert', site.raw['desc'])
@@ -581,7 +617,8 @@ def sub_send_message_num_items(site):
         for e in p.calls():
             if e['res'] == 'member::Members::choose_active_members':
                 w = e['args'][1]
-                if q.bounded_by(p, w, 65535):
+                if q.bounded_by(p, w, 65535, follow=lambda nm: site.ctx.paths(site.f, site.f.fn(nm), 'none')
+                                if nm in site.f.by_name else None):
                     good = True
                 else:
                     return False, 'number of members selected for a Feed is not capped with min(.., u16::MAX)'
@@ -739,7 +776,7 @@ def p_len_fits_u16(site):
     for cb, bi, tt in f.callers_of(lambda n: n == 'broadcast::Broadcasts::add_or_replace'):
         for p in site.ctx.paths(f, cb, 'none'):
             for i, e in enumerate(p.events):
-                if e['kind'] != 'call' or e['res'] != 'broadcast::Broadcasts::add_or_replace' or e['block'] != bi:
+                if e['kind'] != 'call' or e['res'] != 'broadcast::Broadcasts::add_or_replace' or e.get('tblock', e['block']) != bi:
                     continue
                 if e['args'][0] != ('ref', q.self_field('custom_broadcasts'), True):
                     continue
@@ -754,11 +791,12 @@ def p_len_fits_u16(site):
                     good = False
                     for c in q.conds_before(p, i):
                         nrm = q.cmp_norm(c)       # `len <= k` in any spelling
-                        if nrm and nrm[0] == 'ge':
-                            rhs = q.peel(nrm[1])
-                            if rhs[0] == 'const' and rhs[2] is not None and rhs[2] <= 65535 and \
-                                    nrm[2][0] == 'call' and nrm[2][1] in calls and calls[nrm[2][1]]['res'].endswith('::len'):
-                                good = True
+                        if nrm and nrm[0] == 'ge' and nrm[2][0] == 'call' and nrm[2][1] in calls and \
+                                calls[nrm[2][1]]['res'].endswith('::len'):
+                            for rhs in q.min_operands(p, nrm[1]):       # `len <= k` or `len <= min(.., k)`
+                                rhs = q.peel(rhs)
+                                if rhs[0] == 'const' and rhs[2] is not None and rhs[2] <= 65535:
+                                    good = True
                     if not good:
                         return False, 'add_broadcast accepts items longer than u16::MAX (length prefix is 16 bits)'
                 else:
@@ -790,14 +828,7 @@ def p_updates_buf_untouched(site):
 
 def p_probe_connected(site):
     def pred(p, c):
-        ex = c['expr']
-        es = q.eq_sides(ex)
-        if not es:
-            return False
-        is_eq, a, b = es
-        if not (q.is_self_field_load(a, 'connection_state') and q.is_variant(b, 'ConnectionState', 'Connected')):
-            return False
-        return q.cond_truth(c) == is_eq
+        return q.conn_state_test(site.f, c, 'Connected') is True
     return callers_guarded(site, 'Foca::probe_random_member', pred, 'connection_state == Connected')
 
 
@@ -946,6 +977,16 @@ def p_expect_indirect_ack(site):
                 pick = [c for c in p.events[:i] if c['kind'] == 'call' and c['res'] == 'member::Members::choose_active_members']
                 if not pick:
                     return False, 'helpers are not drawn from choose_active_members'
+                # ... into an empty buffer: what is popped afterwards are the freshly chosen helpers only (a left-over
+                # entry of an earlier, interrupted pop loop may be the probed member itself)
+                pi = [k for k, x in enumerate(p.events) if x is pick[-1]][0]
+                dest = pick[-1]['args'][2]
+                cleared = [x for x in p.events[:pi] if x['kind'] == 'call' and x['res'] == 'alloc::vec::Vec::clear'
+                           and x['args'][0] == dest]
+                touched = [x for x in p.events[:pi] if x['kind'] == 'call' and x['res'] != 'alloc::vec::Vec::clear' and
+                           any(a == dest or a == ('ref', q.SELF, True) for a in x['args'])]
+                if not cleared or (touched and p.events.index(touched[-1]) > p.events.index(cleared[-1])):
+                    return False, 'the helpers are chosen into a buffer that was not cleared first'
                 clo = pick[-1]['args'][4]
                 if not (clo[0] == 'agg' and clo[1] == 'closure'):
                     return False, 'picker is not a closure'
